@@ -681,8 +681,6 @@ def corr_sites(ctx, impl, inputs):
         for b in (False, True):
             for c in (False, True):
                 mode = {(False, False): "plain", (True, False): "buffered", (False, True): "cached", (True, True): "cached+buffered"}[b, c]
-                if form == "block" and b:
-                    continue          # see oracle_sites: a buffered block renders nothing in place
                 for filtered in (True, False):
                     for f in ("x", "h", "u", "entity", "trim"):
                         if not filtered and f != "x":
@@ -1184,9 +1182,6 @@ def oracle_sites(ctx, rep, F, inputs):
     combos = []
     for form, (_, has_modes, _) in SITE_FORMS.items():
         for mode in (SITE_MODES if has_modes else ["-"]):
-            if form == "block" and "buffered" in mode:
-                continue      # a block in place is called as a statement: the value a *buffered* block returns is dropped
-                              # by visitBlockTag whatever its filter (nothing is rendered) - not a filter matter (C05)
             combos.append((form, mode))
     for f in SITE_FILTERS:
         for form, mode in combos:
